@@ -412,6 +412,7 @@ class Ctx:
     def case(self, case, nontrivial=True, sample_every=0):
         """register one evaluated case; returns True if it is new (distinct)"""
         self.evaluations += 1
+        self.journal(case)
         h = hashlib.sha1(json.dumps(case, sort_keys=True, ensure_ascii=False, default=str).encode()).hexdigest()
         new = h not in self.distinct
         if new:
@@ -421,6 +422,18 @@ class Ctx:
         if len(self.samples) < 3 and new and nontrivial:
             self.samples.append(case)
         return new
+
+    def journal(self, case):
+        """remember the case being worked on, so that a hard crash of the interpreter (segfault/abort inside the
+        code under test) can still be reported with the input that caused it"""
+        path = os.environ.get("VERIF_JOURNAL")
+        if not path:
+            return
+        try:
+            with open(path, "w") as f:
+                json.dump({"case": case, "n": self.evaluations}, f, default=str, ensure_ascii=False)
+        except Exception:
+            pass
 
     def match_known(self, clause, tags):
         for k in self.known:
